@@ -7,8 +7,8 @@
     particular an error-free anchored adapter is removed exactly.  Together with
     C07_comparers_unfiltered this holds for match_to as the user gets it (no prefilter there).
 
-    Also proved (Proofs/AlignComplete.v): for regular 5', regular 3' and 'anywhere' adapters with
-    indels enabled, an error-free copy of the whole adapter anywhere in the read is always found by
+    Also proved (Proofs/AlignComplete.v): for regular 5', regular 3' and 'anywhere' adapters (indels
+    enabled or disabled), an error-free copy of the whole adapter anywhere in the read is always found by
     the aligner (Aligner.locate reports a match): the DP cells on the diagonal of the copy are tracked
     exactly -- cost 0, so the Ukkonen cut-off cannot drop them -- up to the column where the copy ends,
     where the candidate is accepted unless a candidate is recorded already.
@@ -39,10 +39,10 @@ Theorem C02_anchored_noindels_unfiltered : forall thr ad read,
 Proof. exact comparer_no_prefilter. Qed.
 Print Assumptions C02_anchored_noindels_unfiltered.
 
-(** regular 5', regular 3' and 'anywhere' adapters, indels enabled: an error-free copy of the whole
-    adapter anywhere in the read is always reported by the aligner *)
+(** regular 5', regular 3' and 'anywhere' adapters, indels enabled or disabled: an error-free copy of
+    the whole adapter anywhere in the read is always reported by the aligner *)
 Theorem C02_full_copy_found : forall thr ad read p,
-  match a_type ad with Front | Back | Anywhere => True | _ => False end -> a_indels ad = true ->
+  match a_type ad with Front | Back | Anywhere => True | _ => False end ->
   1 <= zlen (a_seq ad) -> a_min_overlap ad <= zlen (a_seq ad) ->
   (forall L, 0 <= thr L) -> (forall L, thr L <= thr (zlen (a_seq ad))) -> thr (zlen (a_seq ad)) <= zlen (a_seq ad) ->
   0 <= p -> p + zlen (a_seq ad) <= zlen read ->
@@ -55,7 +55,7 @@ Print Assumptions C02_full_copy_found.
 
 (** ... at the level of Aligner.locate: every flag set that may start and stop anywhere in the query *)
 Theorem C02_locate_full_copy : forall thr cfg wq ref query p,
-  indel_cost cfg = 1 -> start_in_query cfg = true -> stop_in_query cfg = true ->
+  1 <= indel_cost cfg -> start_in_query cfg = true -> stop_in_query cfg = true ->
   1 <= zlen ref -> min_overlap cfg <= zlen ref ->
   (forall L, 0 <= thr L) -> (forall L, thr L <= thr (zlen ref)) -> thr (zlen ref) <= zlen ref ->
   0 <= p -> p + zlen ref <= zlen query ->
